@@ -2149,6 +2149,17 @@ func (c *RemoteClient) handleMessage(ctx context.Context, m *Message) error {
 		ctx = logger.ContextWithLogFields(ctx, logger.String("remote_message", messageName))
 	}
 
+	// Until the server's accept has been verified only the accept itself, or a reject of the
+	// registration, is processed. Nothing else is trusted enough to reach the handlers.
+	if !c.accepted.Load().(bool) {
+		switch m.Payload.(type) {
+		case *AcceptRegister, *Reject:
+		default:
+			logger.Warn(ctx, "Ignoring message received before the connection was accepted")
+			return nil
+		}
+	}
+
 	// Handle message
 	switch msg := m.Payload.(type) {
 	case *AcceptRegister:
